@@ -91,9 +91,30 @@ mod replay {
     use std::vec::Vec;
     pub static mut VALS: Vec<Vec<u8>> = Vec::new();
     pub static mut NEXT: usize = 0;
+    /// 0: recorded values; 1..: generated values (fallback when Kani's playback could not print the trace values)
+    pub static mut PATTERN: u32 = 0;
+    pub static mut GEN: u64 = 0;
+
+    fn gen_byte() -> u8 {
+        unsafe {
+            GEN = GEN.wrapping_add(1);
+            match PATTERN {
+                1 => 0,
+                2 => GEN as u8,
+                3 => 0xFF,
+                _ => { let x = GEN.wrapping_mul(6364136223846793005).wrapping_add(1442695040888963407); (x >> 33) as u8 }
+            }
+        }
+    }
 
     pub fn pop(want: usize) -> Vec<u8> {
         unsafe {
+            if PATTERN != 0 {
+                let mut v = Vec::new();
+                let mut i = 0;
+                while i < want { v.push(gen_byte()); i += 1; }
+                return v;
+            }
             if NEXT >= VALS.len() {
                 std::eprintln!("ND-EXHAUSTED: harness asked for value #{} but only {} were recorded", NEXT, VALS.len());
                 std::process::exit(3);
@@ -116,6 +137,11 @@ pub fn verif_replay_set_values(v: alloc::vec::Vec<alloc::vec::Vec<u8>>) {
         replay::VALS = v;
         replay::NEXT = 0;
     }
+}
+#[cfg(all(verif_replay, not(kani)))]
+#[no_mangle]
+pub fn verif_replay_set_pattern(p: u32) {
+    unsafe { replay::PATTERN = p; replay::GEN = 0; }
 }
 
 #[cfg(all(verif_replay, not(kani)))]
